@@ -112,6 +112,12 @@ normalize_token.register(
 )
 
 
+def _str_and_type(o: object) -> tuple[str, str]:
+    # str() alone is not a total order: 1 and "1" (or None and "None") tie, and
+    # the order of tied items then depends on insertion or hash order
+    return str(o), type(o).__qualname__
+
+
 @normalize_token.register((types.MappingProxyType, dict))
 def normalize_dict(d):
     with tokenize_lock:
@@ -120,7 +126,7 @@ def normalize_dict(d):
         _SEEN[id(d)] = len(_SEEN), d
         try:
             return "dict", _normalize_seq_func(
-                sorted(d.items(), key=lambda kv: str(kv[0]))
+                sorted(d.items(), key=lambda kv: _str_and_type(kv[0]))
             )
         finally:
             _SEEN.pop(id(d), None)
@@ -131,12 +137,12 @@ def normalize_ordered_dict(d):
     return _normalize_seq_func((type(d), list(d.items())))
 
 
-@normalize_token.register(set)
+@normalize_token.register((set, frozenset))
 def normalize_set(s):
     # Note: in some Python version / OS combinations, set order changes every
     # time you recreate the set (even within the same interpreter).
     # In most other cases, set ordering is consistent within the same interpreter.
-    return "set", _normalize_seq_func(sorted(s, key=str))
+    return type(s).__name__, _normalize_seq_func(sorted(s, key=_str_and_type))
 
 
 def _normalize_seq_func(seq: Iterable[object]) -> tuple[object, ...]:
